@@ -1,7 +1,7 @@
 (* Extraction of the executable model to OCaml.  ExtrOcamlBasic only: bool, option, list,
    prod, unit, sumbool map to OCaml's; N / positive / nat / Z stay inductive. *)
 From Coq Require Import Extraction ExtrOcamlBasic ZArith.
-From QwtModel Require Import Outcome ListX Seq QVec RSQ QWT Words BitVec RSBin DArrayM Huff Serde Iter Prefetch Space Schema Remap.
+From QwtModel Require Import Outcome ListX Seq QVec RSQ QWT Words BitVec RSBin DArrayM Huff Serde Iter Prefetch Space Schema Remap State.
 Extraction Language OCaml.
 Extraction "model.ml"
   N.add N.mul N.sub N.div N.modulo N.eqb N.ltb N.leb N.of_nat N.to_nat N.div_eucl N.pow
@@ -22,6 +22,7 @@ Extraction "model.ml"
   craft4 craft2 hq_build hq_new hq_len hq_get hq_get_unchecked hq_rank hq_rank_unchecked hq_select hq_select_unchecked hq_rank_prefetch hq_rank_prefetch_unchecked
   wt_build hwt_new wt_get wt_get_unchecked wt_rank wt_rank_unchecked wt_select wt_select_unchecked rev_frags
   encode decode wt all_schemas stable_partition_of_2 text_remap
+  hq_default rsn_default rsw_default qv_value rsq_value bv_value rsn_value rsw_value da_value qwt_value hq_value wt_value
   abi64 qv_heap rsq_heap bv_heap rsn_heap rsw_heap da_heap qwt_heap wt_heap_plain qv_space rsq_space bv_space rsn_space rsw_space da_space qwt_space hq_space wt_space
   wtit_new wtit_next wtit_next_back wtit_len
   qwt_pfs_new qwt_rank_prefetch_pfs hq_pfs_new hq_rank_prefetch_pfs
